@@ -135,6 +135,47 @@ def locate(repo, relfile, path, cache):
 def line_of(src, pos):
     return src.count("\n", 0, pos) + 1
 
+RUST_KEYWORDS = set("as break const continue crate else enum extern false fn for if impl in let loop match mod move mut pub ref return self Self static struct super trait true type unsafe use where while async await dyn".split())
+_BASELINE_FNS = None
+
+def var_idents(src):
+    """lower-case identifiers of a piece of Rust text in order of first occurrence, leaving out method/field names (after `.`),
+    path segments (next to `::`), calls and macros (before `(` / `!`)"""
+    toks = [t for t in rustlex.lex(src) if t.kind != "comment"]
+    out, seen = [], set()
+    for i, t in enumerate(toks):
+        if t.kind != "ident" or t.text in RUST_KEYWORDS or not (t.text[0].islower() or t.text[0] == "_"): continue
+        prev = toks[i - 1].text if i else ""
+        nxt = toks[i + 1].text if i + 1 < len(toks) else ""
+        if prev in (".", "::") or nxt in ("(", "!", "::"): continue
+        if t.text not in seen: seen.add(t.text); out.append(t.text)
+    return out
+
+def rename_map(blk, text):
+    """R16.  Ghost text (contract clauses, loop invariants, hints) and text anchors name locals and parameters of the real function.
+    If the identifiers of the function's text differ from its BASELINE text (vc/baseline_fns.json: the tree on which the unit was
+    written) by a consistent renaming - k identifiers no longer occur anywhere in the function, k new ones occur, paired in order of
+    first occurrence (positional for parameters) - that renaming is applied to the ghost text and the anchors of this item.  The real
+    code is never touched.  Only occurrences of identifiers that no longer exist in the function are replaced, so ghost text that
+    would still compile is left as it is.  Sound whatever the pairing: a proof that goes through IS a proof of the contract for the
+    code as it stands; a function verified with adapted ghost text that FAILS is reported undecided, never as a violation."""
+    global _BASELINE_FNS
+    if _BASELINE_FNS is None:
+        try: _BASELINE_FNS = json.load(open(os.path.join(VC, "baseline_fns.json")))
+        except Exception: _BASELINE_FNS = {}
+    old = _BASELINE_FNS.get("%s :: %s" % (blk.file, blk.path))
+    if not old or old == text: return {}
+    ro, ao = var_idents(old), var_idents(text)
+    removed = [x for x in ro if x not in set(ao)]; added = [x for x in ao if x not in set(ro)]
+    if not removed or len(removed) != len(added): return {}
+    return dict(zip(removed, added))
+
+def apply_rename(mapping, s):
+    if not mapping or s is None: return s
+    # same notion of "variable occurrence" as var_idents: not a field / method (after `.`), not a path segment, not a call or macro
+    for a, b in mapping.items(): s = re.sub(r"(?<![\w.])(?<!::)%s(?![\w(!])(?!\s*::)" % re.escape(a), "\x00" + b, s)
+    return s.replace("\x00", "")
+
 def build_item(repo, blk, cache):
     src, item = locate(repo, blk.file, blk.path, cache)
     T0 = item.start
@@ -142,6 +183,21 @@ def build_item(repo, blk, cache):
     edits = []   # (pos_abs, del_len, ins_text, tag)
     def add(pos, dl, ins, tag): edits.append((pos, dl, ins, tag))
     rewrites = []
+    # R16: adapt ghost text and anchors to renamed locals / parameters (see rename_map)
+    ren = rename_map(blk, text) if item.kind == "fn" else {}
+    if ren:
+        before = json.dumps([blk.spec, blk.loops, blk.anchored, blk.bodystart, blk.substs], default=list, sort_keys=True)
+        blk.spec = apply_rename(ren, blk.spec); blk.bodystart = apply_rename(ren, blk.bodystart)
+        blk.loops = {n: apply_rename(ren, t) for n, t in blk.loops.items()}
+        blk.anchored = [tuple(apply_rename(ren, x) if isinstance(x, str) and i in (1, 3) else x for i, x in enumerate(a)) for a in blk.anchored]
+        new_substs = [(rid, apply_rename(ren, frm), apply_rename(ren, to)) for rid, frm, to in blk.substs]
+        blk.subst_opt = set((rid, apply_rename(ren, frm)) for rid, frm in blk.subst_opt)
+        blk.substs = new_substs
+        after = json.dumps([blk.spec, blk.loops, blk.anchored, blk.bodystart, blk.substs], default=list, sort_keys=True)
+        if before != after:
+            rewrites.append({"id": "R16", "ghost_text_adapted_to_renamed_identifiers": ren})
+        else:
+            ren = {}
     # strip inner attributes of struct/enum items (e.g. thiserror's #[error], #[from])
     if item.kind in ("struct", "enum") and blk.strip_inner_attrs:
         toks = item.toks
@@ -346,6 +402,7 @@ def build_item(repo, blk, cache):
         "sha256": hashlib.sha256(text.encode()).hexdigest(),
         "rewrites": rewrites, "trusted": blk.trusted, "serves": blk.serves,
         "has_contract": blk.spec is not None,
+        "adapted": bool(ren),
         "stripped_inner_attrs": sum(1 for e in edits if e[3] == "strip-attr"),
     }
     return gen, out, info, src
